@@ -250,6 +250,21 @@ def run(ctx):
         a0 = 1.0 if code != '4' else rng.choice([1.0, 0.5])
         nsys = rng.randint(1, 3); nh = rng.randint(1, 3); nb = rng.randint(1, 4); na = rng.randint(1, 4)
         trip = [[[gen_triple(rng, code) for _ in range(nb)] for _ in range(nh)] for _ in range(nsys)]
+        if (bi // len(CODES)) % 3 == 2:
+            # variations whose asymmetries cancel over the whole histogram set (a normalisation-preserving pure-shape variation): exact in
+            # floating point — Σ(up + down − 2·nominal) = 0 and Π(up·down / nominal²) = 1 — while no single bin is symmetric; an aggregate
+            # test for symmetry must not mistake them for symmetric variations
+            nb = 2 * rng.randint(1, 2)
+            trip = [[[None] * nb for _ in range(nh)] for _ in range(nsys)]
+            for s_ in range(nsys):
+                for h in range(nh):
+                    for b in range(0, nb, 2):
+                        nom = float(rng.choice([8, 16, 32, 64]))
+                        if code in ('1', '4'): trip[s_][h][b] = (nom, nom, 2 * nom); trip[s_][h][b + 1] = (nom / 2, nom, nom)
+                        else:
+                            d = float(rng.choice([1, 2, 4]))
+                            trip[s_][h][b] = (nom - d, nom, nom + 3 * d); trip[s_][h][b + 1] = (nom + d, nom, nom - 3 * d)
+            ctx.tally('block_kind', 'cancelling-asymmetries')
         hs = [[[[t[0] for t in trip[s_][h]], [t[1] for t in trip[s_][h]], [t[2] for t in trip[s_][h]]] for h in range(nh)] for s_ in range(nsys)]
         al = [[rng.choice([-2.5, -a0, -0.5 * a0, 0.0, 0.3 * a0, a0, 1.7, 3.0]) for _ in range(na)] for _ in range(nsys)]
         cls = pyhf.interpolators.get(PYCODE[code])
